@@ -335,21 +335,46 @@ def loop_exit_controls(an, header):
     return out
 
 
-def _branch(an, sw, val):
+def _branch(an, sw, val, pre=None):
     """(normal form of the condition a switch decides, value) with the discriminant of a helper's `if c {Some(..)} else {None}`
     (`if c {1} else {0}`) read as a branch on c"""
-    d = norm(an.switches[sw])
-    for _ in range(4):
+    d = norm(pre(an.switches[sw]) if pre is not None else an.switches[sw])
+    for it_ in range(4):
+        first = it_ == 0
+        if d[0] == "ite" and d[2][0] == "c" and d[3][0] == "ite" and val == str(d[2][1]) and str(d[2][1]) not in _ite_leaves(d[3]):
+            # a classification `if c {k0} else if .. {k1} else {k2}` tested for its first class: a branch on c
+            d, val = d[1], "otherwise"
+            continue
         if d[0] == "ite" and d[2][0] == "c" and d[3][0] == "c" and d[2] != d[3]:
-            if val == str(d[2][1]):
+            k1, k2 = str(d[2][1]), str(d[3][1])
+            if val == k1:
                 d, val = d[1], "otherwise"
-            elif val == str(d[3][1]) or val == "otherwise":
+            elif val == k2:
+                d, val = d[1], "0"
+            elif val == "otherwise" and first:
+                # the value is none of the listed ones: whichever arm's constant is not listed
+                listed = {str(v) for v, _ in an.blocks[sw]["term"]["targets"]}
+                if k1 in listed and k2 not in listed:
+                    d, val = d[1], "0"
+                elif k2 in listed and k1 not in listed:
+                    d, val = d[1], "otherwise"
+                else:
+                    break
+            elif val == "otherwise" and k1 != "0" and k2 == "0":
+                d, val = d[1], "otherwise"        # truthy: the arm with the non-zero constant
+            elif val == "otherwise" and k1 == "0" and k2 != "0":
                 d, val = d[1], "0"
             else:
                 break
         else:
             break
     return d, val
+
+
+def _ite_leaves(d):
+    if d[0] == "ite":
+        return _ite_leaves(d[2]) | _ite_leaves(d[3])
+    return {str(d[1])} if d[0] == "c" else {"?"}
 
 
 def _is_name_compare(d, name):
@@ -409,7 +434,7 @@ def walk_compares(an, rep, rule, key, w, skip_ok, what):
                 "the chain walk can move on to the next entry without comparing the name (decisions taken: %s): a present symbol is reported absent" % msg)
 
 
-def early_exits(an, rep, rule, key, w, early_ok, what, target=None, subject="the chain walk", lost="a present symbol is reported absent"):
+def early_exits(an, rep, rule, key, w, early_ok, what, target=None, subject="the chain walk", lost="a present symbol is reported absent", pre=None):
     """Completeness, before the walk: a decision taken ahead of the chain walk that by-passes it (an early `Ok(None)`) must be one of
     the enumerated reasons for which the table cannot contain the name (`early_ok`), or the failure arm of a `?`.  Any other early
     answer (`if name.len() > 255 { return Ok(None) }`) reports symbols absent that the table contains."""
@@ -445,13 +470,13 @@ def early_exits(an, rep, rule, key, w, early_ok, what, target=None, subject="the
             if len(vals) != 1:
                 rep.bad(rule, "%s:early|bb%d" % (key, b), w, "UNRECOGNISED: several branch values by-pass %s from one test" % subject)
                 continue
-            d, val = _branch(an, b, vals[0])
+            d, val = _branch(an, b, vals[0], pre)
             n += 1
             if d[0] == "discr" and d[1][0] == "call" and d[1][1] == "ops::Try::branch":
                 ok = val == "1"
                 why = "continues past a failed read"
             else:
-                ok = early_ok(d, val) is True
+                ok = _justified(d, val, early_ok)
                 why = "is not one of the accepted reasons (%s)" % what
             rep.require(ok, rule, "%s:early|%s|%s" % (key, show(d)[:160], val), w, "%s is by-passed on %s=%s" % (subject, show(d)[:120], val),
                         "the answer is given without %s on %s = %s, which %s: %s" % (subject, show(d)[:200], val, why, lost))
@@ -477,6 +502,30 @@ def ctor_refusals(rep, rule, key, an, w):
             stray.append("%s %s" % (c[0], [show(x)[:80] if isinstance(x, tuple) else x for x in c[1:3]]))
     rep.require(not stray, rule, key + ":refusals", w, "%d error outcomes: header unreadable, count conversion / overflow, range outside the data" % n,
                 "the constructor refuses tables for a reason other than the declared layout not fitting the bytes (%s): a well-formed table cannot be looked up" % "; ".join(stray)[:300])
+
+
+def _justified(d, val, early_ok, depth=0):
+    """the branch (d, val) is taken only for accepted reasons; d may be the case analysis of a helper (`if c1 { false } else { c2 }`):
+    then every case that can produce the branch value must be reached through, or be, an accepted decision"""
+    if d[0] != "ite" or depth > 4:
+        return early_ok(d, val) is True
+    c, arms = d[1], ((d[2], "otherwise"), (d[3], "0"))
+    able = 0
+    for arm, cval in arms:
+        if arm[0] == "c":
+            k = arm[1]
+            k = int(k) if isinstance(k, bool) else k
+            hit = (val == str(k)) or (val == "otherwise" and k != 0 and isinstance(k, int))
+            if not hit:
+                continue
+            able += 1
+            if early_ok(c, cval) is not True:
+                return False
+        else:
+            able += 1
+            if early_ok(c, cval) is not True and not _justified(arm, val, early_ok, depth + 1):
+                return False
+    return able > 0
 
 
 def cond_holds(d, val):
